@@ -383,6 +383,8 @@ type c13WinRes struct {
 	Alive      bool
 	PingsAfter   int  // health-retry-wait: pings after Close() was called
 	OpenOnServer bool // inside-vbucket-reopen: the stream of vBucket 0 is open on the server after Start() returned
+	Acked        bool   // inside-reopen-acked: the document of vBucket 0 was delivered and acknowledged before Close()
+	StoredSeq    uint64 // ... and the checkpoint of vBucket 0 in the store after Start() returned
 }
 
 func init() {
@@ -425,6 +427,7 @@ func init() {
 			return
 		}
 		pingsAtClose := 0
+		ackedInReopen := false
 		switch a.Kind {
 		case "health-retry-wait":
 			// the server stops answering pings: a health-check round has failed once and sits in its one-second retry wait
@@ -466,6 +469,36 @@ func init() {
 			d.Client.SetOpenErr(0, errors.New("scripted reopen failure"))
 			d.Client.Observer(0).End(models.DcpStreamEnd{VbID: 0}, gocbcore.ErrSocketClosed)
 			time.Sleep(150 * time.Millisecond)
+		case "inside-reopen-acked":
+			// the reopen half of a rebalance: vBucket 0 is streaming again and a document of it has been acknowledged, the request
+			// for vBucket 1 is still unanswered
+			d.Store.Gate = false // the final save goes straight through
+			var once sync.Once
+			arrived := make(chan struct{})
+			d.Client.OnOpen = func(vb uint16) {
+				if vb == 1 {
+					once.Do(func() { close(arrived) })
+					<-release
+				}
+			}
+			d.Client.TakeOpens()
+			go d.Stream.Rebalance()
+			select {
+			case <-arrived:
+			case <-time.After(3 * time.Second):
+			}
+			for t0 := time.Now(); time.Since(t0) < 2*time.Second && len(d.Client.TakeOpens()) == 0; time.Sleep(2 * time.Millisecond) {
+			}
+			time.Sleep(20 * time.Millisecond)
+			if ob := d.Client.Observer(0); ob != nil {
+				n := d.Cons.Count()
+				d.deliver(ob, 0, &SEv{Kind: "marker", S: 0, E: 5})
+				d.deliver(ob, 0, &SEv{Kind: "mut", Item: &SItem{Seq: 1, Cas: 1, Key: []byte("k1"), Rest: 1}})
+				if ctx := d.Cons.Ctx(n); ctx != nil {
+					ctx.Ack()
+					ackedInReopen = true
+				}
+			}
 		case "inside-reopen":
 			var once sync.Once
 			arrived := make(chan struct{})
@@ -504,6 +537,12 @@ func init() {
 			time.Sleep(200 * time.Millisecond)
 			res.OpenOnServer = d.Client.OpenOnServer(0)
 		}
+		if a.Kind == "inside-reopen-acked" {
+			res.Acked = ackedInReopen
+			if doc, ok := d.Store.Snapshot()[0]; ok && doc.Checkpoint != nil {
+				res.StoredSeq = doc.Checkpoint.SeqNo
+			}
+		}
 		_, _, _, opens0 := d.Client.Counts() // what the reopen half that was running has requested is closed again by the teardown
 		if a.Kind == "during-reopen-retries" {
 			time.Sleep(5500 * time.Millisecond) // the retries give up (and panic) four seconds after the first attempt
@@ -524,9 +563,9 @@ func runC13Windows(c *Ctx) {
 		auto bool
 	}
 	var jobs []job
-	for _, kind := range []string{"inside-close", "during-delay-timer-armed", "inside-reopen", "during-reopen-retries", "health-retry-wait", "inside-vbucket-reopen"} {
+	for _, kind := range []string{"inside-close", "during-delay-timer-armed", "inside-reopen", "during-reopen-retries", "health-retry-wait", "inside-vbucket-reopen", "inside-reopen-acked"} {
 		for _, auto := range []bool{true, false} {
-			if (kind == "during-reopen-retries" || kind == "health-retry-wait" || kind == "inside-vbucket-reopen") && !auto {
+			if (kind == "during-reopen-retries" || kind == "health-retry-wait" || kind == "inside-vbucket-reopen" || kind == "inside-reopen-acked") && !auto {
 				continue // once each
 			}
 			jobs = append(jobs, job{kind, auto})
@@ -576,6 +615,10 @@ func runC13Windows(c *Ctx) {
 			c.Violate(class, fmt.Sprintf("%s: %d more pings were issued after Close() (the round was not abandoned)", what, res.PingsAfter), rep)
 		case kind == "inside-vbucket-reopen" && res.OpenOnServer:
 			c.Violate(class, what+": after Start() returned the stream of that vBucket is open on the server", rep)
+		case kind == "inside-reopen-acked" && res.Acked && res.StoredSeq != 1:
+			c.Violate(class, fmt.Sprintf("Close() inside the reopen of a rebalance, after a document of an already reopened vBucket had been acknowledged (automatic checkpointing): the stored checkpoint of that vBucket is %d, the acknowledged position 1", res.StoredSeq), rep)
+		case kind == "inside-reopen-acked":
+			// stream requests of the reopen that was running are the library's business
 		case kind == "inside-vbucket-reopen":
 			// the stream requests of that reopen are the library's business; what counts is that nothing is left open
 		case res.OpensAfter > 0:
